@@ -360,6 +360,12 @@ def work(payload, skip, report):
         if s1.errors[0] is not None or expected is None:
             acc.violation("single_worker_baseline", {"condition": cond["name"]}, s1.errors[0], "a result")
             return acc
+        if not isinstance(s1.final_table, list):
+            # the pages are gone after one worker opened, worked and closed its context
+            acc.case()
+            acc.violation("stored_pages_unchanged", {"condition": cond["name"], "workers": 1, "schedule": []}, s1.final_table,
+                          "the stored pages")
+            return acc
         before = [r for r in s1.final_table if r[0] != "Module:_sandbox_phase1"] if not cond["bootstrap"] else s1.final_table
         nexec, st, tr = explore(tmpl, n, bound, acc, cond, expected, before, report)
         acc.sets["states"] |= st
@@ -389,6 +395,12 @@ def replay(case):
                 out.append({"oracle": kind, "observed": s.errors[i], "expected": "no exception"})
             elif s.results[i] != expected:
                 out.append({"oracle": "same_results_as_single_worker", "observed": s.results[i], "expected": expected})
+        if not isinstance(s1.final_table, list):
+            # the pages are gone after one worker opened, worked and closed its context
+            acc.case()
+            acc.violation("stored_pages_unchanged", {"condition": cond["name"], "workers": 1, "schedule": []}, s1.final_table,
+                          "the stored pages")
+            return acc
         before = [r for r in s1.final_table if r[0] != "Module:_sandbox_phase1"] if not cond["bootstrap"] else s1.final_table
         if s.final_table not in (before, sorted(before + [("Module:_sandbox_phase1", 828, "", None, "Scribunto")])):
             out.append({"oracle": "stored_pages_unchanged", "observed": str(s.final_table)[:200], "expected": "unchanged"})
